@@ -883,10 +883,109 @@ impl SubCheckT for SddQueries {
     }
 }
 
+// ---------------------------------------------------------------------------
+// very long query sequences on one builder
+// ---------------------------------------------------------------------------
+
+#[derive(Clone, Debug, Serialize, Deserialize)]
+pub struct LongCase {
+    pub n: u8,
+    pub bits: [u64; 4],
+    /// queries that produce no diagram (counts, hashes, evaluation, optimisation)
+    pub queries: Vec<Q>,
+    /// how many queries are issued in all
+    pub count: u32,
+    pub seed: u64,
+}
+
+pub struct ManyQueries;
+
+fn long_pool<'a>(b: &'a RobddBuilder<'a, rsdd::builder::cache::AllIteTable<BddPtr<'a>>>, case: &LongCase, n: usize) -> Vec<(BddPtr<'a>, Tt)> {
+    let restrict = |w: u64| {
+        let mut t = Tt([w, w.rotate_left(17), !w, w ^ 0x5555_5555_5555_5555]);
+        for v in n..crate::tt::NV {
+            t = t.cofactor(v, false);
+        }
+        t
+    };
+    let (t1, t2) = (restrict(case.bits[0]), restrict(case.bits[1]));
+    let f = crate::semi::bdd_from_tt(b, t1, n);
+    let g = crate::semi::bdd_from_tt(b, t2, n);
+    vec![(f, t1), (g, t2), (b.and(f, g), t1.and(t2)), (b.or(f, g.neg()), t1.or(t2.not()))]
+}
+
+pub fn run_long(case: &LongCase, st: &mut Stats) -> CaseResult {
+    let n = (case.n as usize).clamp(2, 6);
+    let queries: Vec<&Q> = case.queries.iter().filter(|q| !matches!(q, Q::Smooth(..) | Q::Condition(..) | Q::ConditionModel(..) | Q::Exists(..))).collect();
+    if queries.len() < 2 {
+        return Ok(());
+    }
+    // reference: each query alone on a freshly built copy
+    let mut expected: Vec<Ans> = Vec::new();
+    for q in queries.iter() {
+        let b0 = RobddBuilder::<rsdd::builder::cache::AllIteTable<BddPtr>>::new(VarOrder::linear_order(n));
+        let pool0 = long_pool(&b0, case, n);
+        expected.push(answer(&b0, &pool0, n, q, &mut Vec::new()));
+    }
+    let b = RobddBuilder::<rsdd::builder::cache::AllIteTable<BddPtr>>::new(VarOrder::linear_order(n));
+    let pool = long_pool(&b, case, n);
+    let total = case.count as u64;
+    for i in 0..total {
+        let k = (splitmix(case.seed ^ i.wrapping_mul(0x9E37_79B9_7F4A_7C15)) % queries.len() as u64) as usize;
+        let got = answer(&b, &pool, n, queries[k], &mut Vec::new());
+        ensure!(
+            got == expected[k],
+            "C10/answer-depends-on-history:long-sequence",
+            "query #{} of a sequence on one builder ({:?}) answered {:?}; alone on a freshly built copy the answer is {:?}",
+            i,
+            queries[k],
+            got,
+            expected[k]
+        );
+        if i % 4096 == 4095 || i + 1 == total {
+            for (p, _) in pool.iter() {
+                for nd in bdd_nodes(*p) {
+                    ensure!(
+                        BddPtr::Reg(nd).is_scratch_cleared(),
+                        "C10/scratch-left-behind",
+                        "after {} queries a node on variable {} still holds scratch data",
+                        i + 1,
+                        nd.var.value()
+                    );
+                }
+            }
+        }
+    }
+    st.add("long.queries_issued", total);
+    st.flag("long.more_than_65536_queries", total > 65_536);
+    let classes: BTreeSet<&'static str> = queries.iter().map(|q| q.class()).collect();
+    if total > 65_536 && classes.len() >= 2 {
+        st.mark_nontrivial();
+    }
+    Ok(())
+}
+
+impl SubCheckT for ManyQueries {
+    type Case = LongCase;
+    const NAME: &'static str = "many_queries_on_one_builder";
+    const RULE: &'static str = "four BDDs sharing nodes over 2..6 variables and 4..16 distinct queries without diagram results (counts in seven semirings, evaluate, count_nodes, semantic hashes, marginal_map, meu, bb), issued 66 000 .. 140 000 times in a pseudo-random order on one builder (beyond 2^16 calls, where a narrow per-call counter would wrap): every answer equals the answer of that query alone on a freshly built copy, and every 4096 calls every node reports an empty scratch slot. Non-trivial: more than 65 536 calls of at least two result types";
+    fn cases(tier: Tier) -> u32 {
+        tier.pick(6, 60)
+    }
+    fn strategy(_tier: Tier) -> BoxedStrategy<LongCase> {
+        (2u8..=6, any::<[u64; 4]>(), proptest::collection::vec(q_strategy(), 8..=24), 66_000u32..=140_000, any::<u64>())
+            .prop_map(|(n, bits, queries, count, seed)| LongCase { n, bits, queries, count, seed })
+            .boxed()
+    }
+    fn run(case: &LongCase, st: &mut Stats) -> CaseResult {
+        run_long(case, st)
+    }
+}
+
 pub fn property() -> Property {
     Property {
         id: "C10",
-        subs: vec![sub::<BddQueries>(), sub::<SddQueries>()],
+        subs: vec![sub::<BddQueries>(), sub::<SddQueries>(), sub::<ManyQueries>()],
         fuzz: vec![FuzzSpec { target: "queries", runs: 10000, max_len: 400 }],
         assumptions: vec![
             "debug assertions are compiled in: a tripped debug_assert!(is_scratch_cleared()) is a violation",
